@@ -43,7 +43,11 @@ def search_units(units, iters, seed, prop=None):
     """native random search over the harnesses mapped to the given units (and applicable to the property);
     returns first hit or None.  Harnesses that carry a recorded known finding are skipped."""
     from contracts import registry as REG
-    known = set(k.get('obligation') for k in load_known() if k.get('status') == 'known')
+    known = set()
+    for k in load_known():
+        if k.get('status') == 'known':
+            known.add(k.get('obligation'))
+            known.update(k.get('obligations_known', []))
     hs = []
     for h, info in REG.HARNESSES.items():
         if set(info['units']) & set(units) and (prop is None or prop in info['props']) and ('harness::' + h) not in known:
